@@ -342,6 +342,36 @@ func genC06(c *RunCtx) []*Batch {
 				}
 			}
 		}
+		// the library's own binding constructors on key maps of every shape (dense, with a far key the caller chose,
+		// undefined-variable mode): a context or an error, then a result or an error
+		if evals%3 == 0 && !rc.Events && !rc.Debug { // (an event-mode program blocks on its channel without a consumer)
+			kc := eval.CopyConfig(built.Conf)
+			vals := map[string]interface{}{}
+			for n := range kc.VariableKeyMap {
+				if v, ok := bd.Vals[n]; ok {
+					if _, isErr := v.(*UserErr); !isErr {
+						vals[n] = v
+					}
+				}
+			}
+			switch r.Intn(3) {
+			case 0:
+				kc.VariableKeyMap["zfar"], vals["zfar"] = eval.VariableKey(40+r.Intn(210)), int64(1)
+			case 1:
+				kc.VariableKeyMap["zneg"], vals["zneg"] = eval.VariableKey(-3), int64(1)
+			}
+			guarded(map[string]interface{}{"call": "NewCtxFromVars / Eval / EvalBool / TryEvalBool", "source": src, "key_map": fmt.Sprint(kc.VariableKeyMap)}, func() {
+				defer func() {
+					if p := recover(); p != nil {
+						rep("NewCtxFromVars+Eval (key map "+fmt.Sprint(kc.VariableKeyMap)+")", p)
+					}
+				}()
+				cx := eval.NewCtxFromVars(kc, vals)
+				_, _ = e.Eval(cx)
+				_, _ = e.EvalBool(cx)
+				_, _ = e.TryEvalBool(cx)
+			})
+		}
 		guarded(map[string]interface{}{"call": "Dump/DumpTable", "source": src}, func() {
 			defer func() {
 				if p := recover(); p != nil {
